@@ -579,7 +579,8 @@ LABELS_PLAIN = ['src 1', 'A', 'My label here', 'region18', 'NGC_1234-b', 'x;y#z'
 # (also: '=' inside a quoted string; characters that str.splitlines() treats as line boundaries but the CRTF line
 # grammar does not - form feed, vertical tab, FS/GS/RS, NEL, LS, PS)
 LINECHARS = ['page\x0cbreak', 'v\x0bt', 'fs\x1cgs\x1drs\x1eend', 'nel\x85x', 'ls\u2028x', 'ps\u2029x', 'tab\tx']
-LABELS_HOSTILE = ['NGC 1234, north', 'bracket [1]', 'say "hi" there', 'a,b', 'S/N = 5', 'k=v', 'RADIO FMT', '{0}'] + LINECHARS
+LABELS_HOSTILE = ['NGC 1234, north', 'bracket [1]', 'say "hi" there', 'a,b', 'S/N = 5', 'k=v', 'RADIO FMT', '{0}',
+                  'peak 3, linewidth=5 in the plot', 'field A, coord=GALACTIC, color=red', 'see [2], symsize=3'] + LINECHARS
 TEXTS = ['hello', 'a b', 'NGC 1234', 'x;y#z', 'α Cen', 'two, parts', 'T', '(1) core + jet', '3.5mJy', 'the "core"', '"quoted"', 'offset 30"',
          'S/N = 5.2', 'k=v', 'a= b', 'x [1]',
          # strings that look like the serialiser's own template placeholders / unit names
@@ -621,7 +622,7 @@ def gen_meta(rng, shape):
     if t != 'absent':
         meta['type'] = t
     if shape != 'text' and rng.random() < 0.5:
-        if INCLUDE_HOSTILE_LABELS and rng.random() < 0.06:
+        if INCLUDE_HOSTILE_LABELS and rng.random() < 0.12:
             meta['label'] = rng.choice(LABELS_HOSTILE)
         else:
             meta['label'] = rng.choice(LABELS_PLAIN)
